@@ -48,7 +48,7 @@ fn c01_8a_yield_now_requeues_the_coroutine_once() {
     assert!(unsafe { YIELDS } == 1, "[C01.8-yields-once] yield_now suspends the coroutine exactly once");
     let queued = sup::count(sup::E_SCHEDULE) + sup::count(sup::E_SCHEDULE_GLOBAL) + sup::count(sup::E_RUN);
     assert!(queued == 1, "[C01.8-requeued-once] a yielding coroutine must be handed back to the scheduler exactly once: zero loses it, two runs it on two workers");
-    let same = unsafe { sup::SCHEDULED.as_ref().map(|c| c.shim_id()) == Some(CO_ID) } || unsafe { sup::RAN.as_ref().map(|c| c.shim_id()) == Some(CO_ID) };
+    let same = sup::resumed_id() == Some(unsafe { CO_ID });
     assert!(same, "[C01.8-same-coroutine] the coroutine handed back is the one that yielded");
     sup::leave_coroutine();
 }
